@@ -4,7 +4,7 @@ from harness.props import c03
 
 RULE = ("random wire packets (C03 generator, incl. hostile option areas, unknown kinds, EOL padding) -> real dump()/dump_quirks() -> "
         "real TCPSignature.parse -> real match; the printed texts are compared with the model's printer, the parse-back with the "
-        "packet's own fields, and the self-written signature (written from the packet signature AND from the parsed packet's own option object) must match the packet exactly; direct sweeps over layouts of kinds "
+        "packet's own fields AND with what the verified extractor reads from the packet's bytes, and the self-written signature (written from the packet signature AND from the parsed packet's own option object) must match the packet exactly; direct sweeps over layouts of kinds "
         "0..255 and quirk sets (quick: all single/double bits + 3000 random; thorough: all 2^17); non-trivial = non-empty layout "
         "or quirk set")
 GEN_TIE = ['options', 'sig']     # TCPOptions.parse (the option walker's while loop) is also TRANSLATED from /repo's source on every run and proved equal to the model
@@ -54,6 +54,13 @@ def model_cases(cases, impl_res, run_model):
             out[i] = {"skipped": True}
     for i, r in zip(idx, run_model(lines)):
         out[i] = r
+    # what the packet's BYTES say (the verified extractor of C03): the printed layout / quirks must denote that, not merely be self-consistent
+    pk = [i for i, c in enumerate(cases) if "spec" in c and isinstance(out[i], list)]
+    ex = run_model(["extract %d 0 %s" % (W.full(cases[i]["spec"])["v"], W.build(cases[i]["spec"]).hex()) for i in pk])
+    for i, r in zip(pk, ex):
+        if isinstance(r, dict) and isinstance(r.get("ok"), dict) and "psig" in r["ok"]:
+            ps = r["ok"]["psig"]
+            out[i] = list(out[i]) + [{"wire": [ps["layout"], ps["eol"], ps["quirks"]]}]
     return out
 
 
@@ -136,6 +143,12 @@ def judge(c, ir, mr):
     if ir["back"] != want and (has_eol or f["eol"] == 0):
         return {"kind": "printed layout/quirks do not parse back to the packet's own fields", "why": "fields %s texts %s back %s" % (f, [bytes.fromhex(x).decode() for x in ir["texts"]], ir["back"]),
                 "judged_by": "C18_layout / C18_quirks"}
+    wire = [x for x in (mr if isinstance(mr, list) else []) if isinstance(x, dict) and "wire" in x]
+    if wire and wire[0]["wire"] != [f["layout"], f["eol"], f["quirks"]]:
+        from harness import findings
+        if not findings.scapy_ao_short(findings.raw_opt_area(W.build(c["spec"]), W.full(c["spec"])["v"])):
+            return {"kind": "the printed layout / quirks do not denote what the packet's bytes say", "why": "printed from %s, the verified extractor reads %s" % ([f["layout"], f["eol"], f["quirks"]], wire[0]["wire"]),
+                    "judged_by": "C03 extractor + C18_layout / C18_quirks"}
     if "packet_view" in ir and ir["packet_view"] != [f["layout"], f["eol"], ir["texts"][0]]:
         return {"kind": "the parsed packet and its packet signature print different option layouts", "why": "packet %s, signature %s" % (ir["packet_view"], [f["layout"], f["eol"], ir["texts"][0]])}
     if "self_match_packet_view" in ir and ir["self_match_packet_view"] != "EXACT":
@@ -144,7 +157,7 @@ def judge(c, ir, mr):
         return {"kind": "a signature written from the packet does not match it exactly", "why": str(ir)}
     if "db_match" in ir and ir["db_match"] != "EXACT":
         return {"kind": "a signature written from the packet, loaded as a database, does not label that packet", "why": str(ir)[:400]}
-    if isinstance(mr, list) and ir["texts"] != mr[:2]:
+    if isinstance(mr, list) and ir["texts"] != list(mr[:2]):
         return {"kind": "printed text differs from the verified printer (but parses back correctly)", "no_failing_input": True, "why": "impl %s model %s" % ([bytes.fromhex(x).decode() for x in ir["texts"]], [bytes.fromhex(x).decode() for x in mr[:2]]),
                 "judged_by": "C18_layout / C18_quirks (the model printer is proved to be inverted by the parser)"}
     return None
